@@ -1,8 +1,9 @@
 (* Entry/DispatchDecode.v — case format shared by C03 / C05 / C16 (harness/dispatch_common.go).
    input = [procs; track; recmode; endmode; close_at; c_fg; c_bg; d_fg; d_bg; seed; panic%; park%;
-            V; (n_fg n_bg) x V; L; code x L]
+            V; (n_fg n_bg) x V; L; code x L; arg x L]   (arg: harness only)
            code mod 1000 = verb index (0 = the 001 line) | 900 JOIN | 901 short PING | 902 "433 a"
-   obs   = one 7-byte field per event (tag kind k_hi k_lo i a_hi a_lo), then "end:<status>" *)
+   obs   = one 7-byte field per event (tag kind k_hi k_lo i a_hi a_lo), then "end:<status>";
+           or ["dead"; crash report] when the client process died (C16 runs sessions in a child) *)
 From Verif Require Import EntryBase DispatchLts.
 Open Scope Z_scope.
 
@@ -14,10 +15,13 @@ Definition dsp_nlines (i : list bytes) : nat := get_nat i (13 + 2 * dsp_nverbs i
 Definition dsp_code (i : list bytes) (k : nat) : nat :=
   Nat.modulo (get_nat i (14 + 2 * dsp_nverbs i + k)) 1000.
 
-(* internal handlers behind a line: h_001 / h_PING / h_433; with tracking every verb is a
-   state-changing one; without tracking the pool is PING, PRIVMSG, CTCP, NICK, NOTICE, 372, V7
-   (index 1..7) of which PING, CTCP and NICK have a built-in handler.  n_int is not observable
-   and no monitor depends on it. *)
+(* internal handlers behind a line: h_001 / h_PING / h_433 / h_CAP; with tracking the pool is
+   every verb of stHandlers (TOPIC 332 MODE 324 JOIN PART KICK QUIT NICK 353 352 311 671 = index
+   1..13); without tracking PING, PRIVMSG, CTCP, NICK, NOTICE, 372, V7 (index 1..7) of which PING,
+   CTCP and NICK have a built-in handler.  n_int is not observable and no monitor depends on it.
+   Codes >= 900 are our own JOIN (900) and the short lines whose built-in handler panics; the
+   user handlers registered on the verb of such a line still run: PING = verb 1 without tracking
+   (901), JOIN = verb 5 with tracking (900, 905). *)
 Definition dsp_line (i : list bytes) (k : nat) : linfo :=
   let c := dsp_code i k in
   if Nat.ltb c (dsp_nverbs i)
@@ -26,8 +30,9 @@ Definition dsp_line (i : list bytes) (k : nat) : linfo :=
           n_fg := get_nat i (13 + 2 * c); n_bg := get_nat i (14 + 2 * c);
           welcome := Nat.eqb c 0 |}
   else if Nat.eqb c 901 && negb (dsp_track i)
-  then (* a short PING line: h_PING panics; the user handlers registered on PING (verb 1) still run *)
-       {| n_int := 1; n_fg := get_nat i 15; n_bg := get_nat i 16; welcome := false |}
+  then {| n_int := 1; n_fg := get_nat i 15; n_bg := get_nat i 16; welcome := false |}
+  else if (Nat.eqb c 900 || Nat.eqb c 905) && dsp_track i
+  then {| n_int := 1; n_fg := get_nat i 23; n_bg := get_nat i 24; welcome := false |}
   else {| n_int := 1; n_fg := 0; n_bg := 0; welcome := false |}.
 
 Definition dsp_session (i : list bytes) : session :=
